@@ -228,6 +228,21 @@ def effects(tier, variant=0):
               max_tasks=4)
 
 
+def saturate(tier):
+    """free runs only: more slow tasks in flight than the store's pool has workers (rusty_pool's default:
+    two per CPU) and then an action with a Task effect - every task and effect still runs on a worker,
+    the surplus waits in the pool's queue"""
+    try:
+        ncpu = len(os.sched_getaffinity(0))
+    except AttributeError:
+        ncpu = os.cpu_count() or 4
+    n = 2 * ncpu + 3
+    progs = [{"c1": [O("task")] * n + [D(1), D(2)] + STOP}]
+    i = _i("saturate", progs, {1: 0, 2: 0}, cap=2, red_script={"r1": {0: red("D", eff("task"))}}, max_tasks=n + 2)
+    i["slow_effect_us"] = 40000
+    return i
+
+
 def middleware(tier, n=2):
     """every verdict at every hook of the starred middlewares"""
     star = {"before_reduce": {0: "*", 1: "*"}, "before_effect": {0: "*", 1: "*"}, "before_dispatch": {0: "*", 1: "*"}}
@@ -530,7 +545,7 @@ def table(pid, tier):
             ([] if q else [effects(tier, 2)])
         inv = ["C11_AtMostOnce", "C11_Once", "C11_Worker", "C11_Followup", "C11_Once_strict"]
         T = dict(mc=[(i, inv, ["C11_QuietAfterStop"]) for i in insts], gen=[(i, 500 if q else 10000) for i in insts[:4]],
-                 free=[(i, 80 if q else 500) for i in insts])
+                 free=[(i, 80 if q else 500) for i in insts] + [(saturate(tier), 3 if q else 12)])
     elif pid == "C12":
         insts = [middleware(tier, 1), middleware(tier, 2)] + ([] if q else [middleware(tier, 3)])
         inv = ["C12_Veto", "C12_Suppress", "C01_Fold", "C07_ReducerContext"]
